@@ -40,7 +40,7 @@ def inputs(run: Run, cfg: dict, want_fstrings: bool = False) -> list[dict]:
                 add(alpha.concretise(a, rng, v), f"chargen:{sub}:v{v}")
     for c in gens.lexgen(run, 3 if run.tier == "quick" else 4):
         add(c["src"], "lexgen")
-    for c in gens.indent(run):
+    for c in gens.indent(run, light=True):
         add(c["src"], "indent.tla")
     # nesting boundaries: CPython's tokenizer takes 200 open brackets and refuses the 201st (it decides the domain here as well)
     for d in (50, 51, 99, 100, 101, 199, 200, 201):
